@@ -6,6 +6,7 @@ For every `@implements(np.X)` function the pass collects the calls to
   _validate_units_consistency_v2(ref, *args)   kind "validate_v2" (ref's owner + args)
   _array_comp_helper(a, b)                     kind "comp_helper"
   _sanitize_range(range, units=[...])          kind "sanitize_range" (range against the operands)
+  _validate_side_values(ref, kwargs, names, …) kind "validate_side"  (ref + the named keyword operands)
 following calls into module-level helper functions (clip -> clip_impl, linspace -> _linspace,
 histogram -> _histogram, diff -> diff_helper ...) with their argument binding.  Names are those
 of the handler's own parameters, mapped by position onto the parameter names of the NumPy
@@ -133,7 +134,18 @@ class Pass:
             if not isinstance(n, ast.Call) or not isinstance(n.func, ast.Name):
                 continue
             callee = n.func.id
-            if callee in CHECKS:
+            if callee == "_validate_side_values" and len(n.args) >= 3 and isinstance(n.args[2], (ast.Tuple, ast.List)):
+                # _validate_side_values(ref, kwargs, ("prepend", "append"), positional): the reference
+                # operand and the named keyword operands (checked with _validate_units_consistency_v2)
+                ns = names_in(n.args[0]) + [e.value for e in n.args[2].elts if isinstance(e, ast.Constant) and isinstance(e.value, str)]
+                res = []
+                for m in ns:
+                    for r in (resolve(m) if m in own or m in al else [m]):
+                        for o in (outward(r) if (r in own or binding is None) else [r]):
+                            if o not in res:
+                                res.append(o)
+                out.append(("validate_side", res))
+            elif callee in CHECKS:
                 ns = []
                 for a in n.args:
                     ns += names_in(a)
